@@ -20,6 +20,7 @@ import PS.Proofs.Enum.Heapq
 import PS.Proofs.Enum.HeapSearch
 import PS.Proofs.Enum.HeapInv
 import PS.Proofs.Enum.BucketOrder
+import PS.Model.Prob
 namespace PS.C03HS
 open PS PS.G PS.HS
 
@@ -123,5 +124,32 @@ example : Heapq.WeakOrder (fun a b : Nat => decide (a < b)) :=
    fun a b c h1 h2 => by simp only [decide_eq_false_iff_not] at h1 h2 ⊢; omega⟩
 
 example : Heapq.pop (fun a b : Nat => decide (a < b)) [1, 3, 2, 7, 4] = some (1, [2, 3, 4, 7]) := by decide
+
+/-! ### finding: best-first order is violated on recursive grammars (re-entrant `query`) -/
+section Reentrant
+def rInt : Ty := .base "t"
+def rF : Sym := Sym.prim "F" (.arrow rInt (.arrow rInt rInt))
+def rg : Sym := Sym.prim "g" (.arrow rInt rInt)
+def rb : Sym := Sym.prim "b" rInt
+def rc : Sym := Sym.prim "c" rInt
+/-- `CFG.infinite(DSL{F : t1 -> t1 -> t0, b : t0, g : t0 -> t1, c : t1}, t0, n_gram=1)`:
+    `S0 → b | F S1 S1`, `S1 → c | g S0` -/
+def rG : TT Nat Unit := ⟨(rInt, (0, ())), [((rInt, (0, ())), [(rb, ([], ())), (rF, ([(rInt, 1), (rInt, 1)], ()))]),
+                                          ((rInt, (1, ())), [(rc, ([], ())), (rg, ([(rInt, 0)], ()))])]⟩
+def rW : AList (NT Nat Unit) (AList Sym Rat) :=
+  [((rInt, (0, ())), [(rb, 1/64), (rF, 63/64)]), ((rInt, (1, ())), [(rc, 1/2), (rg, 1/2)])]
+def rE : Env Nat Unit Rat := { G := rG, W := rW, ops := probOps 0, filter := fun _ => true }
+def rFcc : Prog := .node rF [.node rc [], .node rc []]
+
+/-- heap search yields `(F c c)` (63/256), then `b` (1/64) **before** `(F (g (F c c)) c)` (3969/65536 > 1/64):
+    while `__add_successors__((F c c), S0)` is still running (the successors of `(F c c)` are not pushed
+    yet), the nested `query(S1, c)` pops `(g (F c c))`, whose `__add_successors__` calls
+    `query(S0, (F c c))`, which pops the heap of `S0` too early.  Same output on the implementation. -/
+theorem finding_C03_HS_reentrant :
+    (take rE 200 3 (Gen.new rG) []).map (fun r => r.2.1.map (fun p => (p, G.prob rG rW p rG.start))) =
+      some [(rFcc, 63/256), (.node rb [], 1/64), (.node rF [.node rg [rFcc], .node rc []], 3969/65536)] ∧
+    ((1 : Rat)/64 < 3969/65536) := by
+  decide +kernel
+end Reentrant
 
 end PS.C03HS
